@@ -117,6 +117,9 @@ def _oracle_case(case, obs):
                 what = "copy.deepcopy of env[%d] holds a datetime that denotes another instant than the original's" % op["arg"]
             elif not ex.get("unshared", True):
                 what = "copy.deepcopy of env[%d] shares mutable state with it at %s" % (op["arg"], ex.get("common"))
+        if op["op"] == "same_id" and ex.get("same_id") is False:
+            what = ("two observables built from the same content (env[%d], env[%d]) got different deterministic ids: "
+                    "something the library keeps changed in between" % (op["arg"], op["other"]))
         if op["op"] in REFUSAL_OPS and ex.get("is_prop"):
             if ex.get("refused") is False:
                 what = "%s of property %r on a library object was not refused" % (op["op"], op.get("name"))
